@@ -79,6 +79,11 @@ func genC10(seed uint64) *Scenario {
 	if deep() {
 		nval = pick(r, []int{3, 4, 6, 8, 10, 14})
 	}
+	if r.Chance(200) {
+		// the process has validated ANOTHER document (same definition / operation names, other contents) before it sees this one
+		od, _ := GenSpec(r, pick(r, []int{0, 1, 2, 4}))
+		add(Op{Kind: KSpec, Doc: js(od), COE: bp(r.Chance(500)), OrderSeed: r.U64() | 1, SharedMeta: sharedMeta, ReuseSV: reuseSV, Role: "other-doc"})
+	}
 	for i := 0; i < nval; i++ {
 		if r.Chance(300) || floodPM > 0 || otherDocsPM > 500 {
 			churn()
@@ -101,10 +106,15 @@ func genC10(seed uint64) *Scenario {
 			op.Kind = KSpecOne
 		}
 		op.ReuseSV = reuseSV && op.Kind == KSpec && op.COE != nil
-		if i == 1 && ops[0].Kind == KSpec && ops[0].COE != nil {
+		if i == 1 {
 			// make sure every run repeats at least one (document, option) pair under another order
-			op.Kind, op.COE = KSpec, bp(*ops[0].COE)
-			op.ReuseSV = reuseSV
+			for k := range ops {
+				if ops[k].Kind == KSpec && ops[k].Doc == doc && ops[k].COE != nil {
+					op.Kind, op.COE = KSpec, bp(*ops[k].COE)
+					op.ReuseSV = reuseSV
+					break
+				}
+			}
 		}
 		add(op)
 	}
